@@ -75,7 +75,7 @@ class C13(Check):
         self.stats = {}
 
     def budget(self, tier, escalated):
-        n = 6000 if tier == "quick" else 240000
+        n = 4000 if tier == "quick" else 240000
         return n * (4 if escalated and tier == 'quick' else 1)
 
     def nontrivial(self, sample):
@@ -319,7 +319,9 @@ class C13(Check):
         return evals, findings
 
     def replay(self, data):
+        if data.get('kind') == 'proof':
+            return dict(note='proof obligation replay: rebuild the Props module', theorem=data.get('theorem'))
+        if data.get('kind') == 'correspondence':
+            return bl.replay_correspondence(data)
         i = data['input']
-        if 'probe' not in i:
-            return dict(note='correspondence replay', line=data.get('line'))
         return dict(input=i, oracle=self._oracle(i))
